@@ -52,6 +52,9 @@ func runC05() *RunResult {
 				t.ops = append(t.ops, &Op{Kind: opScribble, Arg: rn(8)})
 			case 1:
 				t.ops = append(t.ops, &Op{Kind: opAppend, Arg: rn(8)})
+			case 4:
+				// between two calls the caller edits one of the documents in place
+				t.ops = append(t.ops, &Op{Kind: opEditDoc, Doc: rn(nd), Arg: rn(1 << 16)})
 			case 2:
 				t.ops = append(t.ops, &Op{Kind: opRetrieve, Path: up, Cfg: ucfg, Doc: udoc, Faults: drawFaults(up.UsesFuncs), Panics: drawPanics(up.UsesFuncs)})
 			case 3:
